@@ -137,6 +137,7 @@ def run(ctx):
     facts = ctx.facts()
     route_census(ctx, facts)
     guard_auth(ctx, facts)
+    guard_cert(ctx, facts)
     who_identity(ctx, facts)
     tls_arms(ctx, facts)
     handlers_no_headers(ctx, facts)
@@ -248,6 +249,55 @@ def maker_reason(root):
     if re.match(r"^<net::server::ClientIdentity<I> as std::convert::TryFrom<&[\w:]*HeaderValue>>::try_from$", root):
         return "parses the header value"
     return None
+
+
+def guard_cert(ctx, facts):
+    """NetworkConfig::identify_cert may return an identity only when a certificate was presented."""
+    ctx.rule("GUARD-cert: identify_cert(cert: Option<&CertificateDer>) can return Some(identity) only on paths where cert is Some (variant-set dataflow on the parameter): no certificate => no identity")
+    bs = [b for p, b in facts.bodies.items() if p.endswith("NetworkConfig::<F>::identify_cert") and b.kind == "AssocFn"]
+    if not bs:
+        return ctx.missing("GUARD-cert", "config::NetworkConfig::identify_cert")
+    b = bs[0]
+    ctx.count(bodies=1)
+    vf = V.VariantFlow(facts, b)
+    env = {"L": {}, "S": {}}
+    env["L"][2] = vf.new_sym(env, "cert", "std::option::Option", None, origin=("param",))
+    vf.run(env)
+    # check at every point where the return place is written (the single `ret` block joins all paths)
+    n = 0
+    bad_site = None
+    for bb in sorted(vf.in_env):
+        env2 = vf.copy_env(vf.in_env[bb])
+        for idx, st in enumerate(b.stmts(bb)):
+            if "p" not in st:
+                continue
+            val = vf.rvalue(env2, bb, idx, st["r"])
+            vf.assign(env2, bb, idx, st["p"], val)
+            if st["p"] == [0]:
+                n += 1
+                vs = vf.variants_at(env2, val) if isinstance(val, frozenset) else {0, 1}
+                if 1 in vs and 0 in env2["S"].get("cert", frozenset([0, 1])):
+                    bad_site = (bb, idx)
+        t = b.term(bb)
+        if t["k"] == "call" and t["d"] == [0]:
+            n += 1
+            for succ, e3 in vf.edge_envs(vf.in_env[bb], bb):
+                val = e3["L"].get(0)
+                vs = vf.variants_at(e3, val) if isinstance(val, frozenset) else {0, 1}
+                if 1 in vs and 0 in e3["S"].get("cert", frozenset([0, 1])):
+                    bad_site = (bb, "t")
+    ctx.floor("GUARD-cert", "writes of identify_cert's return value", n, 1)
+    ctx.ob("GUARD-cert", "identity-requires-certificate", bad_site is None,
+           "an identity is returned only when a certificate is present" if bad_site is None else "identify_cert can return Some(identity) although no client certificate was presented (a peer configured without a certificate would match `None`): unauthenticated TLS callers get an identity",
+           site_of(b, bad_site[0], bad_site[1]) if bad_site else site_of(b))
+    # the acceptor feeds identify_cert with the peer certificate of the TLS stream
+    acc = [x for x in facts.tree("<net::server::ClientCertRecognizingAcceptor<F> as axum_server::accept::Accept<I, S>>::accept")]
+    okp = False
+    for x in acc:
+        for bb, t in x.calls():
+            if (F.callee(t)[0] or "").endswith("identify_cert") and "peer_certificates" in str(flow.expr_of(x, t["args"][1])):
+                okp = True
+    ctx.ob("GUARD-cert", "acceptor-uses-peer-certificate", okp, "the identity is computed from the TLS peer certificate" if okp else "ClientCertRecognizingAcceptor does not derive the identity from peer_certificates()")
 
 
 IDENTITY_MAKERS = {
